@@ -179,13 +179,52 @@ UNITS = [{
                 # exact integer operand never becomes inexact
                 (['C08'], '''r matches Ok(c) ==> (arg(*old(vm), 0) == VCell::ArgumentCount(1) ==> (c matches VCell::Number(v) && (cell_number(old(vm).heap_spec(), arg(*old(vm), 1)) matches Some(x)
                     ==> (is_exact(v) ==> is_exact(x) && vnum(v) * vden(x) == -vnum(x) * vden(v)) && (is_exact(x) && !(x is Rational) ==> is_exact(v)))))'''),
+                # (- x y ...): an exact answer is exactly x minus the sum of ALL the other arguments, each of which then was exact
+                (['C08'], '''r matches Ok(c) ==> (arg(*old(vm), 0) matches VCell::ArgumentCount(n) ==> (n >= 2 ==> (c matches VCell::Number(v) && (num_arg(*old(vm), n as int) matches Some(x)
+                    ==> (is_exact(v) ==> is_exact(x) && args_exact(*old(vm), (n - 1) as nat)
+                        && q_eq(vnum(v), vden(v), vnum(x) * args_sum(*old(vm), (n - 1) as nat).1 - args_sum(*old(vm), (n - 1) as nat).0 * vden(x), vden(x) * args_sum(*old(vm), (n - 1) as nat).1))))))'''),
             ],
+            'loop_iter': {0: 'it0'},
             'loops': {0: '''invariant
-                    vm.stack_spec().wf(), vm.heap_spec() == old(vm).heap_spec(),
-                    argc == 1 ==> (result == Number::Fixnum(0) && vm.stack_spec().cells() == old(vm).stack_spec().cells() && vm.stack_spec().sp_spec() == old(vm).stack_spec().sp_spec() - 1),'''},
+                    vm.stack_spec().wf(), vm.heap_spec() == old(vm).heap_spec(), vm.stack_spec().cells() == old(vm).stack_spec().cells(),
+                    arg(*old(vm), 0) == VCell::ArgumentCount(argc), argc >= 1, old(vm).stack_spec().sp_spec() >= 1,
+                    vm.stack_spec().sp_spec() == (if old(vm).stack_spec().sp_spec() - 1 - it0.index@ >= 0 { old(vm).stack_spec().sp_spec() - 1 - it0.index@ } else { 0 }),
+                    argc == 1 ==> result == Number::Fixnum(0),
+                    is_exact(result) ==> it0.index@ <= old(vm).stack_spec().sp_spec() - 1 && args_exact(*old(vm), it0.index@ as nat)
+                        && q_eq(vnum(result), vden(result), args_sum(*old(vm), it0.index@ as nat).0, args_sum(*old(vm), it0.index@ as nat).1),'''},
             'loop_count': 1,
             'inserts': [
-                {'anchor': 'if argc == 1 {', 'where': 'before', 'text': 'let ghost r1 = result;'},
+                {'loop_start': 0, 'text': 'let ghost sum0 = result; proof { if old(vm).stack_spec().sp_spec() - 1 - it0.index@ >= 1 { axiom_cow_cell_ref(&arg(*old(vm), it0.index@ + 1)); } }'},
+                {'loop_end': 0, 'text': '''; proof {
+                    let j = it0.index@ as nat; let k = (j + 1) as nat;
+                    if is_exact(result) {
+                        match num_arg(*old(vm), k as int) { Some(x) => {
+                            lemma_args_den_pos(*old(vm), j);
+                            assert(vden(sum0) > 0 && vden(x) > 0 && vden(result) > 0);
+                            lemma_sum_step(vnum(sum0), vden(sum0), args_sum(*old(vm), j).0, args_sum(*old(vm), j).1, vnum(x), vden(x), vnum(result), vden(result));
+                            assert forall|i: int| 1 <= i <= k implies ((#[trigger] num_arg(*old(vm), i)) matches Some(y) && is_exact(y)) by { if i <= j { assert(args_exact(*old(vm), j)); } }
+                        } None => {} }
+                    }
+                }'''},
+                {'anchor': 'if let VCell::Number(n) = vm.heap.get(vm.stack.pop()?) {', 'where': 'before', 'text': 'let ghost s0 = result; proof { if old(vm).stack_spec().sp_spec() >= argc && argc >= 1 { axiom_cow_cell_ref(&arg(*old(vm), argc as int)); } }'},
+                {'anchor': 'if argc == 1 {', 'where': 'before', 'text': '''let ghost r1 = result;
+                proof {
+                    if argc >= 2 && is_exact(result) {
+                        match num_arg(*old(vm), argc as int) { Some(x) => {
+                            let m = (argc - 1) as nat;
+                            lemma_args_den_pos(*old(vm), m);
+                            assert(is_exact(s0) && is_exact(x) && is_diff(result, x, s0));
+                            assert(vden(s0) > 0 && vden(x) > 0 && vden(result) > 0);
+                            // x - s == (-s) + x
+                            let (sn, sd, xn, xd, rn, rd) = (vnum(s0), vden(s0), vnum(x), vden(x), vnum(result), vden(result));
+                            let (n0, d0) = (args_sum(*old(vm), m).0, args_sum(*old(vm), m).1);
+                            assert((-sn) * d0 == (-n0) * sd) by (nonlinear_arith) requires sn * d0 == n0 * sd;
+                            assert(rn * (sd * xd) == ((-sn) * xd + xn * sd) * rd) by (nonlinear_arith) requires rn * (xd * sd) == (xn * sd - sn * xd) * rd;
+                            lemma_sum_step(-vnum(s0), vden(s0), -args_sum(*old(vm), m).0, args_sum(*old(vm), m).1, vnum(x), vden(x), vnum(result), vden(result));
+                            assert(rn * (xd * d0) == (xn * d0 - n0 * xd) * rd) by (nonlinear_arith) requires rn * (d0 * xd) == ((-n0) * xd + xn * d0) * rd;
+                        } None => {} }
+                    }
+                }'''},
                 {'anchor': 'Ok(VCell::Number(result))', 'where': 'before', 'text': '''proof {
                     if argc == 1 && is_exact(result) {
                         match cell_number(old(vm).heap_spec(), arg(*old(vm), 1)) {
